@@ -326,7 +326,128 @@ def c19(run):
             "continuing), and the output tree against the direct command-line run")
 
 
+DOC_CFG = """CONSTANT Dev <- {dev}
+CONSTANT Indents <- {ind}
+CONSTANT Firsts <- {first}
+CONSTANT Bodies <- {bodies}
+CONSTANT Leaders <- {leaders}
+INIT Init
+NEXT Next
+{invs}
+"""
+
+
+def doc_tlc(run, pid, ind, first, bodies, leaders, seed, pipeline_every):
+    import docclean
+    inv = {"C01": "C01_CleanIsIdentity", "C04": "C04_IndentIrrelevant"}[pid]
+    dev = current_dev("MC_DocClean")
+    res = lib.run_tlc("MC_DocClean", DOC_CFG.format(dev="NoDev", ind=ind, first=first, bodies=bodies, leaders=leaders,
+                                                     invs="INVARIANT %s" % inv + ("" if dev else "\nINVARIANT Emit")), coverage=False)
+    run.add_tlc("MC_DocClean(%s,%s,%s,%s,Dev={})" % (ind, first, bodies, leaders), res)
+    if dev:
+        res = lib.run_tlc("MC_DocClean", DOC_CFG.format(dev="CurrentDev", ind=ind, first=first, bodies=bodies, leaders=leaders,
+                                                         invs="INVARIANT Emit"), coverage=False)
+        run.add_tlc("MC_DocClean(%s,%s,%s,%s,Dev=Current)" % (ind, first, bodies, leaders), res)
+    docclean.replay(run, pid, res.lines.get("BEH", []), seed, pipeline_every)
+
+
+def c01(run):
+    q = run.tier == "quick"
+    if q:
+        doc_tlc(run, "C01", "IndSmall", "NoFirst", "Bodies2x2", "BothLeaders", run.seed, 7)
+        doc_tlc(run, "C01", "IndSmall", "NoFirst", "Bodies1x3", "Hash", run.seed, 5)
+    else:
+        doc_tlc(run, "C01", "IndBig", "NoFirst", "Bodies2x2full", "BothLeaders", run.seed, 11)
+        doc_tlc(run, "C01", "IndBig", "NoFirst", "Bodies1x4", "Hash", run.seed, 7)
+        doc_tlc(run, "C01", "IndSmall", "NoFirst", "Bodies3x1", "BothLeaders", run.seed, 3)
+    run.assumptions += ["character classes: '#', '[', ']', ':', '.', space, tab, one letter class, one digit class, one "
+                        "non-ASCII class (members drawn per occurrence from seeded pools)",
+                        "bodies containing ']]' are outside the canonical form and skipped at pipeline level"]
+    return ("TLC enumerates every canonical doccomment block over the class alphabet (indentation x body lines) and checks "
+            "C01_CleanIsIdentity on the transcription of clean_doc_lines; every block is fed to the real clean_doc_lines, and "
+            "a stratified share of them goes through the whole pipeline attached to each of 13 entry kinds (function, macro, "
+            "set, option, generic, class, attribute, member, constructor, test, section, add_test, module) at nesting depth "
+            "0-2, where the doc lines (between two unique marker lines) must appear once, contiguously, verbatim and inside "
+            "the item's directive")
+
+
+GEN_CFG = """CONSTANT BracketLevels = {{0, 1, 2}}
+CONSTANT Idents <- {idents}
+CONSTANT ArgMenu <- {args}
+CONSTANT SepMenu <- {seps}
+CONSTANT EndMenu <- {ends}
+CONSTANT GapMenu <- {gaps}
+CONSTANT FaultMenu <- {faults}
+CONSTANT MaxCmds = {maxcmds}
+CONSTANT MaxArgs = {maxargs}
+CONSTANT MaxDepth = {maxdepth}
+CONSTANT MaxLen = {maxlen}
+INIT Init
+NEXT Next
+INVARIANT RefAgree
+"""
+# name: idents, args, seps, ends, gaps, cmds, args, depth, len
+C05_CONFIGS = {   # ... , cmds, args, depth, len quick, len thorough
+    "unquoted": ("IdentsOne", "Unq", "SepsPlain", "EndsNl", "NoGaps", 1, 2, 0, 9, 12),
+    "quoted": ("IdentsOne", "Quo", "SepsPlain", "EndsNl", "NoGaps", 1, 2, 0, 11, 16),
+    "bracket": ("IdentsOne", "Bra", "SepsPlain", "EndsNl", "NoGaps", 1, 2, 0, 14, 20),
+    "comments": ("IdentsOne", "SmallArgs", "SepsComments", "Ends", "NoGaps", 1, 2, 1, 12, 14),
+    "mixed2": ("IdentsS", "MixedArgs", "SepsPlain", "Ends", "Gaps", 2, 2, 1, 10, 14),
+    "compound": ("IdentsOne", "SmallArgs", "SepsPlain", "EndsNl", "NoGaps", 1, 3, 2, 10, 13),
+}
+
+
+def gen_cfg(c, faults="NoFaults", maxlen=None):
+    idents, args, seps, ends, gaps, mc, ma, md, ml = c[:9]
+    return GEN_CFG.format(idents=idents, args=args, seps=seps, ends=ends, gaps=gaps, faults=faults, maxcmds=mc, maxargs=ma,
+                          maxdepth=md, maxlen=maxlen or ml)
+
+
+def c05(run):
+    import lexh
+    q = run.tier == "quick"
+    for name in C05_CONFIGS:
+        c = C05_CONFIGS[name]
+        res = lib.run_tlc("MC_C05", gen_cfg(c, maxlen=c[8] if q else c[9]), coverage=False)
+        run.add_tlc("MC_C05(%s)" % name, res)
+        lexh.replay(run, "C05", res.lines.get("BEH", []), run.seed, limit=None if q else 60000)
+    full = ("IdentsS", "MixedArgs", "SepsComments", "Ends", "Gaps", 4, 4, 2, 60)
+    res = lib.run_tlc("MC_C05", gen_cfg(full), simulate=25 if q else 600, depth=40, seed=run.seed, workers=8, coverage=False)
+    run.add_tlc("MC_C05(simulate, files up to 60 symbols)", res)
+    lexh.replay(run, "C05", [b for b in res.lines.get("BEH", []) if len(b["text"]) > 20], run.seed + 1, limit=3000 if q else 30000)
+    # binding B: token streams of the real lexer on files TLC did not choose
+    import aggtrace
+    import glob as _glob
+    import random as _random
+    rng = _random.Random(run.seed)
+    traces = []
+    for f in sorted(_glob.glob(lib.REPO + "/tests/test_samples/*.cmake") + _glob.glob(lib.REPO + "/tests/examples/*.cmake")):
+        traces.append(lexh.trace_of(f, open(f, encoding="utf-8").read()))
+    for i in range(40 if q else 400):
+        traces.append(lexh.trace_of("random-%d" % i, aggtrace.gen_program(rng, rng.randint(5, 40))))
+    # strings with lexical faults: the error spans of the real lexer must be the model's
+    alphabet = ['a', '"', '\\', '(', ')', '#', '[', ']', '=', ' ', '\n', 't', ';']
+    for i in range(150 if q else 3000):
+        traces.append(lexh.trace_of("noise-%d" % i, "".join(rng.choice(alphabet) for _ in range(rng.randint(1, 14)))))
+    lexh.validate_traces(run, traces, label="TraceLex(fixtures, random modules, noise strings)")
+    lexh.corpus_check(run, run.seed, 45 if q else None)
+    run.assumptions += ["the modules shipped with CMake 3.25 (/usr/share/cmake-3.25, 974 files) stand for real-world input; a "
+                        "module is demanded only if CMake itself parses it (cmake -P on the text wrapped in a never-called function)"]
+    run.assumptions += ["class alphabet: letters (t n r apart), 'module', digit, non-ASCII, other punctuation and the characters "
+                        "CMake.g4 names; members are drawn per occurrence from seeded pools",
+                        "legacy unquoted arguments, BOM and bracket levels > 2 are outside the statement / the model"]
+    return ("TLC builds files from the productions of cmake-language(7) (identifier, parenthesised arguments, unquoted / quoted / "
+            "bracket arguments incl. every escape sequence, continuation, special characters inside each form, non-ASCII, nested "
+            "parentheses, separation by spaces/newlines/CRLF/line comments of all four shapes/bracket comments of level 0-2) so "
+            "that commands and argument boundaries are known by construction, lexes each file with the step-machine model of the "
+            "generated lexer and checks RefAgree; every file is concretised and run through the real lexer, parser and "
+            "Documenter: compared are acceptance, the command sequence and the argument texts/positions of the public parse "
+            "tree (verdict) and the token stream of the real lexer against the model's (drift)")
+
+
 CHECKS = {p: agg_property for p in AGG}
+CHECKS["C05"] = c05
+CHECKS["C01"] = c01
 CHECKS["C17"] = c17
 CHECKS["C19"] = c19
 CHECKS["C16"] = c16
